@@ -55,4 +55,10 @@ CLAIMED["C07"] = (
     "the compiled schedule is validated against a reference windowing and ancestor computation that shares no code with rex.",
     "compiled schedule only (execution is C08/C09/C01); external supergraph library trusted only through rex; <=4 nodes, <=9 steps, <=3 episodes", "DESIGN.md §4 C07",
 )
+CLAIMED["C08"] = (
+    PBT + ": payload-identity oracle (probe outputs carry producer id and seq) on jitted rollouts + static ring-buffer replay of Graph.timings against the allocated sizes",
+    "Independently generated computation graphs x supergraph mode x prune x extra_padding x admissible/inadmissible user buffer_sizes x starting episode/step; "
+    "dynamic: every window entry handed to a step must be the payload of the scheduled sequence number; static: replay of reads/writes in schedule order.",
+    "compiled runtime inside the documented horizon; ring sizes read from Graph.init().buffer; <=4 nodes, <=9 steps, <=3 episodes", "DESIGN.md §4 C08",
+)
 NOT_APPLICABLE = {}
